@@ -30,6 +30,9 @@ let item_of (s : string) : ritem =
   | 'u' -> RNameU (name_of_hex body)
   | _ -> failwith "bad item"
 
+let schema_records = ref 0
+let schema_fallbacks = ref 0
+
 let mk_opt ?(clone=false) udp rc ver dok opts : op =
   let one s = match split '.' s with
     | [code; data] -> let d = bytes_of_hex data in ((ni code, n_of_int (List.length d)), d)
@@ -42,9 +45,16 @@ let xop_of (w : string) : xop =
   match split ':' w with
   | ["q"; nm; ty; cl] -> XPrim (OpQ { q_name = name_of_hex nm; q_type = ni ty; q_class = ni cl })
   | ["r"; nm; ty; cl; ttl; pfx; items] ->
-      XPrim (OpR { r_owner = name_of_hex nm; r_type = ni ty; r_class = ni cl; r_ttl = ni ttl;
-             r_prefixed = (pfx = "1");
-             r_data = (if items = "-" then [] else List.map item_of (split ',' items)) })
+      let r = { r_owner = name_of_hex nm; r_type = ni ty; r_class = ni cl; r_ttl = ni ttl;
+                r_prefixed = (pfx = "1");
+                r_data = (if items = "-" then [] else List.map item_of (split ',' items)) } in
+      (* typed record data of the library: the items are re-derived from the
+         uncompressed octets by the C05 schema of the record type *)
+      if pfx = "2" then begin
+        let (r', via) = c02_typed_record r in
+        if via then incr schema_records else incr schema_fallbacks;
+        XPrim (OpR r')
+      end else XPrim (OpR r)
   | ["o"; udp; opts] -> XPrim (mk_opt udp "-" "0" "0" opts)
   | ["o"; udp; rc; ver; dok; opts] -> XPrim (mk_opt udp rc ver dok opts)
   (* OptBuilder::clone_from(OptRecord): ext rcode octet, version, 16 flag bits; header RCODE untouched *)
@@ -97,4 +107,5 @@ let handle = function
              (int_of_n st.b_qd) (int_of_n st.b_an) (int_of_n st.b_ns) (int_of_n st.b_ar)
              (List.length m) (show_msg m) (if c02_reread st a then "ok" else "bad"))
   | _ -> failwith "bad case line"
+let () = at_exit (fun () -> Printf.eprintf "c02-model: schema_records=%d schema_fallbacks=%d\n" !schema_records !schema_fallbacks)
 let () = main handle
